@@ -79,7 +79,9 @@ def plan(prop, tier):
         jobs = [gram(prop, "q-la", "c", "q", 4, fl), gram(prop, "qe-la", "c", "qe", 4 if q else 5, fl + ["--rec", "1"]),
                 gram(prop, "cur-la", "c", "cur", 5 if q else 7, fl, shards=NPROC),
                 gram(prop, "cur-debug", "c-asan", "cur", 4, ["--la", "1", "--debug", "0,1,2,3,4,5,6,-1", "--rec", "1"], shards=NPROC),
-                Job("repetitive", "c", ["gram", "--family", "rep", "--props", "C09", "--r", "3" if q else "4", "--len", "300" if q else "2000"], NPROC)]
+                Job("repetitive", "c", ["gram", "--family", "rep", "--props", "C09", "--r", "3" if q else "4", "--len", "300" if q else "2000"], NPROC,
+                    env={"VERIF_ANSIC_DESC": os.path.join(os.environ.get("VERIF_BUILD", os.path.join(os.path.dirname(os.path.dirname(os.path.abspath(__file__))), "build")), "gen", "ansic_desc.txt"),
+                         "VERIF_ANSIC_TOKS": os.path.join(os.environ.get("VERIF_BUILD", os.path.join(os.path.dirname(os.path.dirname(os.path.abspath(__file__))), "build")), "gen", "ansic_tokens.txt")})]
         if not q:
             jobs += [gram(prop, "q3-la", "c", "q3", 5, fl), gram(prop, "t1-la", "c", "t1", 5, ["--la", "0,1,2", "--one", "1", "--cost", "0", "--rec", "1"])]
         P = dict(base, jobs=jobs, nontrivial_key="c09_comparisons",
@@ -177,7 +179,8 @@ def plan(prop, tier):
                  rule="every engine is built twice: over the C functions (libyaep) and over class yaep with the separately written C++ containers (libyaep++); both run the same deterministic case spaces (grammar families incl. recovery and cost pruning, callback-level descriptions, description texts and their mutants, API histories with yaep::free_tree) and emit per-group digests of all observations (codes, messages, callbacks, flags, denoted trees, allocation/free counts); the digests must be equal group by group; the C++ runs are also judged by the same reference oracles, and run under ASan on a slice; distinct_nontrivial = digest groups compared",
                  bounds={"note": "quick spaces of C01-C15"}, require={"parses": 100000, "c16_digest_groups_compared": 500})
     elif prop == "C18":
-        jobs = [Job("scale", "c-perf", ["scale", "--jmax", "5" if q else "9"], 12)]
+        gen = os.path.join(os.environ.get("VERIF_BUILD", os.path.join(os.path.dirname(os.path.dirname(os.path.abspath(__file__))), "build")), "gen")
+        jobs = [Job("scale", "c-perf", ["scale", "--jmax", "5" if q else "9", "--ansic-desc", gen + "/ansic_desc.txt", "--ansic-toks", gen + "/ansic_tokens.txt"], 15)]
         P = dict(base, level="exploration", jobs=jobs, states_key="parses", transitions_key="parses", nontrivial_key="doublings",
                  rule="complete finite grid: 4 deterministic left-recursive grammar/input families (list, flat sums, nested arithmetic, nested statement list) x lengths 1000*2^j, j = 0..5 (thorough 0..9 = 512k tokens) x lookahead 0,1,2; measured per parse: bytes and requests asked from the allocator (YAEP_VERIF hook), hash table searches and collisions (exported counters), unique sets / set cores / goto-cache successes (level-1 statistics); oracle: frozen doubling-ratio limits and per-token caps calibrated with head-room on the unchanged tree, constant number of set cores, at most linear number of sets, >= 20 % of the transitions from the goto cache on the nesting inputs; distinct_nontrivial = length doublings compared",
                  bounds={"max_tokens": 32000 if q else 512000, "lookahead": [0, 1, 2]}, require={"parses": 48, "doublings": 40},
